@@ -50,7 +50,8 @@ def gen_op(kind, rng, local):
                            ('__len__', [], None), ('count', [a()], None), ('__contains__', [a()], None), ('reverse', [], None), ('@iter', [], None), ('@str', [], None),
                            ('pop', [], None) if n else ('__len__', [], None), ('__getitem__', [rng.randrange(n)], None) if n else ('__len__', [], None),
                            ('__setitem__', [rng.randrange(n), a()], None) if n else ('append', [a()], None), ('__mul__', [2], None), ('__add__', [[a()]], None),
-                           ('@iadd', [[a()]], None), ('__imul__', [2], None) if n < 50 else ('__len__', [], None)])
+                           ('@iadd', [[a()]], None), ('__imul__', [2], None) if n < 50 else ('__len__', [], None),
+                           ('@imul', [2], None) if n < 50 else ('@imul', [1], None), ('@iadd-check', [[a()]], None)])
     if kind == 'dict':
         keys = list(local)
         k = lambda: rng.choice(['a', 'b', 1, (1, 2), 'z', None])  # noqa: E731
@@ -74,7 +75,8 @@ def gen_op(kind, rng, local):
     if kind == 'box':
         r = rng.random()
         if r < 0.25:
-            return rng.choice([('boom', ['a', rng.randrange(9)], None), ('boom', [], None), ('add', ['x'], None), ('add', [1], {'nope': 2}), ('set', [], None), ('add', [], None)])
+            return rng.choice([('boom', ['a', rng.randrange(9)], None), ('boom', [], None), ('add', ['x'], None), ('add', [1], {'nope': 2}), ('set', [], None), ('add', [], None),
+                               ('leave', [rng.choice([0, 3, 'bye'])], None)])
         return rng.choice([('get', [], None), ('set', [a()], None), ('add', [rng.randrange(9)], None), ('add', [1, 2], {'scale': 3}), ('echo', [a(), a()], {'kw': a()}),
                            ('echo', [], None), ('n_kept', [], None)])
     raise ValueError(kind)
@@ -98,6 +100,12 @@ def apply_local(local, method, args, kwargs):
         if method == '@iadd':
             local += args[0]
             return ('val', None)
+        if method in ('@imul', '@iadd-check'):
+            if method == '@imul':
+                local *= args[0]
+            else:
+                local += args[0]
+            return ('val', None)
         if method == '@iter':
             return ('val', list(iter(local)))
         if method == '@str':
@@ -113,6 +121,8 @@ def apply_local(local, method, args, kwargs):
 
 
 def same(got, exp, method):
+    if method == '__imul__' and exp[0] == 'val':
+        return got[0] in ('proxy', 'val')  # list.__imul__ returns the list itself; the proxy's returns the proxy (or, before the repair, a copy)
     if got[0] != exp[0]:
         return False
     if got[0] == 'exc':
@@ -207,7 +217,7 @@ def run_case(case):
                             if not d['remote'] or 'Traceback' not in d['tb']:
                                 viol.append({'mech': f'proxy/server-traceback-missing/{kind}', 'msg': f'{kind}.{method} raised {d["type"]}{d["args"]} in the caller but without the server-side traceback (remote={d["remote"]})'})
                                 return
-                            if method == 'boom' and 'SITE-MARK-C14' not in d['tb']:
+                            if method in ('boom', 'leave') and 'SITE-MARK-C14' not in d['tb']:
                                 viol.append({'mech': f'proxy/server-traceback-missing/{kind}', 'msg': 'Box.boom: the remote traceback does not name the raising line'})
                                 return
                             # the connection must still be usable
@@ -350,7 +360,7 @@ def run_case(case):
                             if exp[0] == 'exc':
                                 obs['raising_operations'] += 1
                             if not same(got, exp, method):
-                                viol.append({'mech': 'proxy/call-fails-after-proxies-were-released', 'msg': f'{what}: list.{method}{tuple(args)!r} via actor {actor} gave {str(got)[:300]}, direct call gives {str(exp)[:200]}'})
+                                viol.append({'mech': 'proxy/call-fails-after-proxies-were-released' if got[0] == 'exc' and exp[0] != 'exc' else 'proxy/result-differs/list', 'msg': f'{what}: list.{method}{tuple(args)!r} via actor {actor} gave {str(got)[:300]}, direct call gives {str(exp)[:200]}'})
                                 return False
                         return True
 
@@ -480,4 +490,4 @@ def decide_inconclusive(obs, results, cases):
     return None
 
 
-RULE = RULE + '; str() and list iteration through proxies; the same hosted list handed out twice, the newer proxy dropped; proxy lifetimes interleaved with calls: a process (one thread) releases its last proxy of the manager and receives a new one, a pickled / copy.copy twin is released while the original stays in use, in the harness process and in agents'
+RULE = RULE + '; str() and list iteration through proxies; the same hosted list handed out twice, the newer proxy dropped; proxy lifetimes interleaved with calls: a process (one thread) releases its last proxy of the manager and receives a new one, a pickled / copy.copy twin is released while the original stays in use, in the harness process and in agents; in-place operators (p *= 2, p += [..]) must leave the name bound to the proxy; a hosted method that raises SystemExit'
